@@ -62,29 +62,38 @@ def arg_expr(kind, j, variant):
 
 
 def bound(tier):
-    return ("259 bodies x 49 argument-kind pairs x 2 placements of the caller's label x 1..3 applications; + code-block/splice, "
+    return (("1099" if tier == "thorough" else "259") + " bodies x 49 argument-kind pairs x 2 placements of the caller's label x 1..3 applications; + code-block/splice, "
             "0/1-parameter, recursion depth 0..6, undefined / too-few / surplus families")
+
+
+_BODY_MAX = 3
 
 
 def bodies():
     names = list(BODY_STMTS)
     out = []
-    for k in (1, 2, 3):
+    for k in range(1, _BODY_MAX + 1):
         for sel in itertools.permutations(names, k):
             out.append(sel)
     return out
 
 
+def setup(tier, seed):
+    global _BODY_MAX
+    _BODY_MAX = 4 if tier == "thorough" else 3
+
+
 def cases(tier, seed):
-    for bi in range(len(bodies())):
-        yield ("main", bi)
+    setup(tier, seed)
+    for sel in bodies():
+        yield ("main", sel)
     yield ("special",)
 
 
 def describe(case, res):
     d = {"case": list(case), "outcome": res.get("outcome")}
     if case[0] == "main":
-        d["body"] = list(bodies()[case[1]])
+        d["body"] = list(case[1])
     if res.get("example"):
         d["example"] = res["example"]
     return d
@@ -186,8 +195,7 @@ def check(prog, tag, viol, want_twin=True):
     return n, v.status
 
 
-def run_main(bi):
-    sel = bodies()[bi]
+def run_main(sel):
     viol = []
     outcomes = set()
     evals = nt = states = 0
